@@ -13,7 +13,7 @@ import re
 
 from sa.core.common import AnalysisError, Collector
 from sa.core.paths import enumerate_paths, guards, parent_map, truth_table_implies
-from sa.core.pyfacts import Repo, arg, call_name, const_str, kwarg, src, walk_no_nested
+from sa.core.pyfacts import Repo, arg, call_name, const_str, kwarg, src, walk_no_nested, ordk, ordk_end
 from sa.core.readme_tables import Readme
 from sa.core.templates import parts, shape
 from sa.props._tr import check_finder, defs_of, resolve_name
@@ -197,8 +197,18 @@ def check(col: Collector, tier: str):
             src(resolve_name(fn, ast.parse(a0).body[0].value)) == "call_node.args[0]"),
             "the code value may only be built when the argument is an ast.Constant AND its value is a str (propositional check of the guard in "
             "the direction taken); anything else - a number, an expression, another call - must raise", gc_f.loc)
-    col.add("C06.R3", gc_f.short, "validation-before-anything-else", all(r.lineno < ctor[0].lineno for r in raises) and len(raises) >= 2,
-            "both raises must precede the construction of the code value", gc_f.loc)
+    # the code value is built only where every validation passed: for each raise, the test that decides it (its own guards minus the ones
+    # it shares with the constructor call) is among the constructor's guards with the opposite outcome
+    gpm = parent_map(fn)
+    gc_ = {(src(t), tr_) for t, tr_ in guards(fn, ctor[0], gpm)} if ctor else set()
+    passed_all = bool(ctor) and len(raises) >= 2
+    for r in raises:
+        gr = {(src(t), tr_) for t, tr_ in guards(fn, r, gpm)}
+        decisive = gr - gc_
+        passed_all = passed_all and bool(decisive) and all((t_, not v_) in gc_ for t_, v_ in decisive)
+    col.add("C06.R3", gc_f.short, "validation-before-anything-else", passed_all,
+            "the code value must be constructed only where both validations passed (each raise's deciding test holds with the opposite outcome "
+            "at the construction)", gc_f.loc)
 
     # ------------------------------------------------------------ R4 backend check agreement
     col.floor("C06.R4", 6)
